@@ -1374,10 +1374,10 @@ def run(ctx):
     build_and_audit(ctx, PROP, MODULES, THEOREMS)
     import traceback
 
-    from props import C07obs
+    from props import C07_barrier, C07obs
 
     for suite in (fusion_suite, fusion_variants, fusion_history, cone_suite,
-                  C07obs.observation_suite, C07obs.flags_suite, C07obs.wide_suite, C07obs.channel_suite, C07obs.derived_suite):
+                  C07obs.observation_suite, C07obs.flags_suite, C07obs.wide_suite, C07obs.channel_suite, C07obs.derived_suite, C07_barrier.barrier_suite):
         try:
             suite(ctx)
         except Exception as e:  # noqa: BLE001  the real code behaved in a way the harness cannot digest
@@ -1397,7 +1397,9 @@ def run(ctx):
         "and the Lean run (orun, fusedItems) of shot 0 vs the real events; flags: attributes of the fused circuit object vs input vs Lean model of _shallow_copy; snapshots before/after fuse, light_cone, execution; "
         "wide groups: fused groups on 6 and 7 qubits every run (matrix_fused vs independent product, vs Lean FMAT on 6 qubits, fused execution vs Lean simulator); "
         "noise channels: density-matrix circuits with each of the 9 channel classes at every position, every max_qubits: refusal or (no entry lost, flattened queue ~t input by the Lean decision with the channel as an entry on its qubits, equal final density matrix); "
-        "derived operations: fuse().decompose() vs decompose(), measurement-conditioned gates executed before and after fusion with forced outcomes")
+        "derived operations: fuse().decompose() vs decompose(), measurement-conditioned gates executed before and after fusion with forced outcomes; "
+        "barriers: 3-4 qubit circuits of one-/two-qubit gates with 1-3 collapsing measurements / callbacks / already-fused gates in the middle and NO closing entry, max_qubits 2..n, state vectors and density matrices, forced draws: "
+        "order of entries sharing a qubit kept, every observation and the final state equal to an independent explicit-matrix simulation")
     ctx.assumptions += [
         "the theorems are about the Lean transliteration QV/Model/Fusion.lean of Circuit.fuse / FusedGate.fuse / matrix_fused / light_cone; it is tied to the code by exact comparison of fused queues, fused matrices, cones and qubit maps on every generated circuit, and the real output is independently certified by the proved decision procedure for ~t",
         "callbacks and collapsing measurements are observation points of the model QV/Model/FusionObs.lean (T07_fuse_observation_trace: same observation trace and final state for every oracle and normalisation; hypotheses: gates are isometries touching at least one qubit, qubits < nqubits); randomness and the float normalisation are parameters of the model; the tie forces the draws of the real backend and compares real-vs-real and real-vs-model up to normalisation (1e-9), with Gaussian-integer gates (monomial unitaries and sqrt(2)-multiples of H-like unitaries)",
